@@ -71,14 +71,16 @@ Print Assumptions C13_conditions_of_document.
    known ones, and each is read by its class's accessor or by its dedicated accessor (IAM role trust policy) *)
 Theorem C13_typed_paths :
   forall t ov paths, In (t, (ov, paths)) PdPaths.PD_TABLE ->
-  exists r, In r FULL_TABLE /\ c_type r = t /\ c_paths r = paths /\ ov = is_override (c_acc r) /\
+  exists r, In r FULL_TABLE /\ c_type r = t /\ c_paths r = paths /\ (ov = is_override (c_acc r) \/ paths = []) /\
             forallb (path_covered r) paths = true.
 Proof. exact typed_paths. Qed.
 Print Assumptions C13_typed_paths.
 (* FULL_TABLE = the hand-written rows of the 18 classes this development was written against (PdSpec.SPEC_TABLE) + one walking row
-   per class modelled since (a new class must inherit Resource.policy_documents: an override is refused by Typed/PdCheck.v);
-   the known rows are all still generated, unchanged *)
-Theorem C13_known_rows_unchanged : forall r, In r SPEC_TABLE -> In (to_generated r) PdPaths.PD_TABLE.
+   per class modelled since (a new class with document-capable paths must inherit Resource.policy_documents: an override is refused
+   by Typed/PdCheck.v); the known rows are all still generated, unchanged.  For a class WITHOUT document-capable paths (the security
+   groups) the override flag is immaterial: skipping the walk finds what the walk finds, nothing *)
+Theorem C13_known_rows_unchanged : forall r, In r SPEC_TABLE ->
+  exists ov, In (c_type r, (ov, c_paths r)) PdPaths.PD_TABLE /\ (ov = is_override (c_acc r) \/ c_paths r = []).
 Proof. exact known_rows_unchanged. Qed.
 Print Assumptions C13_known_rows_unchanged.
 Theorem C13_typed_generic_field :
